@@ -58,8 +58,12 @@ def sec_147():
         earlier_missed = sorted({list(e.keys())[0].split(':')[0] for e in m.get('earlier_runs', []) if list(e.values())[0]['exit'] == 0})
         ds = m.get('confirmation', {}).get('diffstat', '')
         files = ', '.join(os.path.basename(l.split('|')[0].strip()) for l in ds.splitlines() if '|' in l)
-        rows.append((m['id'], files, ', '.join(caught) or '-', ', '.join(missed) or '-',
-                     ', '.join(c for c in earlier_missed if c in caught) or ''))
+        note = ', '.join(c for c in earlier_missed if c in caught) or ''
+        if m.get('neutralised_by'):
+            note = 'no longer a violation on the current tree (fix %s); before the fix: %s' % (
+                m['neutralised_by']['commit'], 'caught by ' + ', '.join(sorted({list(e.keys())[0].split(':')[0] for e in m.get('earlier_runs', []) if list(e.values())[0]['exit'] == 1})) if any(list(e.values())[0]['exit'] == 1 for e in m.get('earlier_runs', [])) else 'not caught (hidden in the class of a then-open known finding)')
+            caught, missed = [], []
+        rows.append((m['id'], files, ', '.join(caught) or '-', ', '.join(missed) or '-', note))
     out = ['### 14.7 Seeded changes and which checks catch them', '',
            'Fresh sub-agents, given only a property\'s text and a scratch worktree, produced two changes per property that',
            'break the property while the repository\'s tests still pass; each was confirmed (`tools/seed_eval.py`: patch',
@@ -73,7 +77,8 @@ def sec_147():
         out.append('| %s | %s | %s | %s | %s |' % r)
     n = len(rows)
     c = sum(1 for r in rows if r[2] != '-')
-    out += ['', '%d confirmed seeded changes; %d are caught by at least one registered quick check.' % (n, c), '',
+    z = sum(1 for r in rows if 'no longer a violation' in r[4])
+    out += ['', '%d confirmed seeded changes; %d are caught by at least one registered quick check, %d no longer break the property since a repair of the repository (see the last column), %d are not caught.' % (n, c, z, n - c - z), '',
             'What the strengthenings were: C08 - observations made in varying order (a feasibility read re-synchronises shared',
             'node state and hid a stale read of connection sets) and choice constraints observed; C09 - consecutive degree',
             'lists reaching 3 (per-pair limit must come from the degrees as declared); C10 - deterministic sweep over the',
